@@ -116,7 +116,7 @@ ASSUMPTIONS = [
 NOT_DECIDED = {'C04': ['that build_decision_evaluator collects the reference lists from the requirements as written and builds the logic evaluator from the decision logic (the part of the builder outside the closure)',
                        'the service-as-function body closure of decision_service.rs (scope.peek -> evaluate -> pick the output variable) and what build_business_knowledge_model_evaluator hands to build_evaluator (formal parameters, body, result type)',
                        'boxed expression evaluators of builders/mod.rs (their scope half is under contract in unit purity)',
-                       'evaluate_invocable dispatch by name; independence of input entries outside the requirement closure beyond "they do not enter the logic context" (the callees\' own independence is the induction hypothesis)',
+                       'independence of input entries outside the requirement closure beyond "they do not enter the logic context" (the callees\' own independence is the induction hypothesis)',
                        'what two requirements that produce the same name do to each other (later writer wins as coded; the property does not say)']}
 
 BOUNDED = {
@@ -188,3 +188,47 @@ SVC_PARTS = [
 ]
 _k = [i for i, p_ in enumerate(UNIT['parts']) if p_.get('key') == 'reqgraph::knowledge_model_closure'][0]
 UNIT['parts'][_k:_k] = SVC_PARTS
+
+# ---------------------------------------------------------------- invocation by name (model_evaluator.rs)
+MEV = 'model-evaluator/src/model_evaluator.rs'
+HPRE = PRE + '\nbroadcast use vstd::std_specs::hash::group_hash_axioms;\nbroadcast use group_string_keys;\nproof { axiom_string_key_model(); }'
+def mev(name, **kw):
+    d = {'kind': 'fn', 'src': MEV, 'path': 'impl ModelEvaluator::fn ' + name, 'key': 'reqgraph::ModelEvaluator::' + name, 'props': P, 'auto_props': A, 'loops': 0, 'ret': 'r',
+         'impl_header': 'impl ModelEvaluator {', 'body_prefix': PRE, 'requires': [('registries_readable', 'locks_ok(*self)')],
+         'rewrites': [('R3',), ('RX', 'R11', r'FeelContext::default\(\)', 'feel_context_default()', None)]}
+    d.update(kw)
+    return d
+BY_NAME = [
+    {'kind': 'item', 'src': 'feel/src/values.rs', 'path': 'macro_rules! value_null'},
+    {'kind': 'item', 'src': MEV, 'path': 'enum InvocableType'},
+    {'kind': 'vrs', 'file': 'common/string_keys.vrs'},
+    {'kind': 'vrs', 'file': 'reqgraph/byname.vrs'},
+    mev('evaluate_decision',
+        ensures=[('the_value_of_the_decision_over_the_supplied_input', 'dec_known(*self, id@) ==> r == dec_value(*self, id@, input_data.0@)'), ('null_when_there_is_no_such_decision', '!dec_known(*self, id@) ==> r is Null')]),
+    mev('evaluate_decision_service',
+        ensures=[('the_value_of_the_service_over_the_supplied_input', 'ds_known(*self, id@) ==> r == ds_value(*self, id@, input_data.0@)'), ('null_when_there_is_no_such_service', '!ds_known(*self, id@) ==> r is Null')]),
+    mev('evaluate_business_knowledge_model', loops=1,
+        rewrites=[('R3',), ('RX', 'R11', r'FeelContext::default\(\)', 'feel_context_default()', None),
+                  ('RX', 'R2v', r'for \(name, _\) in parameters \{', 'for (name, _) in parameters.iter() {', 1),
+                  ('RX', 'R11', r'value\.to_owned\(\)', 'value.clone()', 1),
+                  ('RX', 'R8e', r'body\.evaluate\(&parameters_ctx\.into\(\)\)', 'function_body_evaluate(body, &scope_from_context(parameters_ctx))', 1),
+                  ('RX', 'R11', r'result_type\.coerced\(&result\)', 'feel_type_coerced(result_type, &result)', 1)],
+        ensures=[('its_function_over_the_like_named_input_entries_coerced',
+                  '({ let c = bkm_bindings(*self, id@, input_data.0@); (c.contains_key(*output_variable_name) && c[*output_variable_name] is FunctionDefinition) ==> '
+                  '({ let f = c[*output_variable_name]; exists |pc: FeelContext| pc.0@ == params_from_input(input_data.0@, f->FunctionDefinition_0@, f->FunctionDefinition_0@.len() as int).union_prefer_right(c) '
+                  '&& r == coerced_spec(f->FunctionDefinition_2, body_value(f->FunctionDefinition_1, seq![pc])) }) })'),
+                 ('null_when_it_is_no_function', '({ let c = bkm_bindings(*self, id@, input_data.0@); !(c.contains_key(*output_variable_name) && c[*output_variable_name] is FunctionDefinition) ==> r is Null })')],
+        loop_specs={0: {'iter_name': 'it', 'body_prefix': PRE,
+                        'invariant': [('pairs', 'it.seq().len() == parameters@.len() && forall |j: int| 0 <= j < it.seq().len() ==> *(#[trigger] it.seq()[j]) == parameters@[j]'),
+                                      ('parameters_so_far', 'parameters_ctx.0@ == params_from_input(input_data.0@, parameters@, it.index@ as int)')]}}),
+    mev('evaluate_invocable', body_prefix=HPRE,
+        rewrites=[('R3',), ('RX', 'R8g', r'self\.invocable_by_name\.read\(\)', 'self.invocable_by_name_read()', 1)],
+        ensures=[('unknown_name_is_null', '!invocables(*self).contains_key(skey(invocable_name@)) ==> r is Null'),
+                 ('a_decision_by_its_name', '(invocables(*self).contains_key(skey(invocable_name@)) && invocables(*self)[skey(invocable_name@)] is Decision) ==> ({ let id = invocables(*self)[skey(invocable_name@)]->Decision_0@; '
+                                            '(dec_known(*self, id) ==> r == dec_value(*self, id, input_data.0@)) && (!dec_known(*self, id) ==> r is Null) })'),
+                 ('a_service_by_its_name', '(invocables(*self).contains_key(skey(invocable_name@)) && invocables(*self)[skey(invocable_name@)] is DecisionService) ==> ({ let id = invocables(*self)[skey(invocable_name@)]->DecisionService_0@; '
+                                           '(ds_known(*self, id) ==> r == ds_value(*self, id, input_data.0@)) && (!ds_known(*self, id) ==> r is Null) })')]),
+]
+_k = [i for i, p_ in enumerate(UNIT['parts']) if p_.get('key') == 'reqgraph::knowledge_model_closure'][0]
+UNIT['parts'][_k:_k] = BY_NAME
+UNIT['uses'] = UNIT['uses'] + ['use std::collections::HashMap;']
